@@ -9,7 +9,7 @@ repository's current working tree, generate histories, run implementation and
 Lean driver on the same lines, compare, search/shrink on any break, write
 evidence.  Python standard library only.
 """
-import fcntl, hashlib, json, os, re, shutil, subprocess, sys, time
+import fcntl, hashlib, json, os, re, shutil, signal, subprocess, sys, time
 
 VERIF = os.path.dirname(os.path.dirname(os.path.abspath(__file__)))
 REPO = os.environ.get("VERIF_REPO", "/repo")
@@ -31,6 +31,14 @@ def run(cmd, **kw):
     kw.setdefault("stderr", subprocess.STDOUT)
     kw.setdefault("text", True)
     return subprocess.run(cmd, **kw)
+
+
+def write_json_atomic(path, obj):
+    os.makedirs(os.path.dirname(path), exist_ok=True)
+    tmp = path + ".tmp.%d" % os.getpid()
+    with open(tmp, "w") as f:
+        json.dump(obj, f, indent=1)
+    os.replace(tmp, path)
 
 
 def load_json(path, default=None):
@@ -103,6 +111,11 @@ def regenerate(work):
     exdir = os.path.join(VERIF, "extract")
     if not os.path.isdir(exdir):
         return {"ran": False, "changed": [], "unrecognised": [], "hashes": {}}
+    gendir = os.path.join(LEAN, "MdsVerif", "Gen")
+    before = {}
+    for fn in os.listdir(gendir) if os.path.isdir(gendir) else []:
+        if fn.endswith(".lean"):
+            before[fn[:-5]] = open(os.path.join(gendir, fn)).read()
     exe = os.path.join(work, "extract")
     r = run(["go", "build", "-o", exe, "."], cwd=exdir, env=GOENV)
     if r.returncode != 0:
@@ -112,6 +125,19 @@ def regenerate(work):
         raise SystemExit("extractor failed:\n" + r.stdout)
     facts = load_json(os.path.join(work, "facts.json"), {})
     facts["ran"] = True
+    # which regenerated definitions differ from the ones the proofs were last checked against
+    diff = {}
+    for g in (facts.get("changed") or []):
+        try:
+            after = open(os.path.join(gendir, g + ".lean")).read()
+        except OSError:
+            continue
+        defs = lambda txt: {m.group(1): m.group(0).strip() for m in re.finditer(r"^def\s+(\S+).*$", txt or "", flags=re.M)}
+        o, n = defs(before.get(g)), defs(after)
+        ch = [{"def": k, "was": o.get(k), "now": n.get(k)} for k in sorted(set(o) | set(n)) if o.get(k) != n.get(k)]
+        if ch:
+            diff[g] = ch[:40]
+    facts["gen_diff"] = diff
     return facts
 
 
@@ -181,6 +207,18 @@ def grep_forbidden(modules):
 
 # ---------------------------------------------------------------- traces
 
+def comm(p, limit, what, broken):
+    """communicate() with a time limit: a generator, harness or driver that does not come back is killed and
+    recorded as a broken run (never waited for indefinitely)."""
+    try:
+        return p.communicate(timeout=limit)
+    except subprocess.TimeoutExpired:
+        p.kill()
+        out, err = p.communicate()
+        broken.append((what, "did not finish within %d s and was killed" % limit))
+        return out, (err or "") + "\n[killed after %d s]" % limit
+
+
 def split_cases(lines):
     """Group op lines into cases (each begins with a `reset` line)."""
     cases, cur = [], []
@@ -199,13 +237,19 @@ def run_impl(h, stream, ops_path, trace_path, stats_path, timeout_ms=None):
     if timeout_ms:
         env["VERIF_CASE_TIMEOUT_MS"] = str(timeout_ms)
     with open(ops_path) as fi, open(trace_path, "w") as fo:
-        r = subprocess.run([h, "run", stream, stats_path], stdin=fi, stdout=fo, stderr=subprocess.PIPE, text=True, env=env)
+        try:
+            r = subprocess.run([h, "run", stream, stats_path], stdin=fi, stdout=fo, stderr=subprocess.PIPE, text=True, env=env, timeout=1800)
+        except subprocess.TimeoutExpired:
+            return 124, "timeout"
     return r.returncode, r.stderr
 
 
 def run_model(stream, trace_path, model_path):
     with open(trace_path) as fi, open(model_path, "w") as fo:
-        r = subprocess.run([DRV, stream], stdin=fi, stdout=fo, stderr=subprocess.PIPE, text=True)
+        try:
+            r = subprocess.run([DRV, stream], stdin=fi, stdout=fo, stderr=subprocess.PIPE, text=True, timeout=1800)
+        except subprocess.TimeoutExpired:
+            return 124, "timeout"
     return r.returncode, r.stderr
 
 
@@ -243,7 +287,7 @@ def eval_case(h, stream, case_ops, work, tag="shrink"):
     md_p = os.path.join(work, tag + ".model")
     st_p = os.path.join(work, tag + ".stats")
     open(ops_p, "w").write("\n".join(case_ops) + "\n")
-    run_impl(h, stream, ops_p, tr_p, st_p, timeout_ms=3000)
+    run_impl(h, stream, ops_p, tr_p, st_p, timeout_ms=int(os.environ.get("VERIF_SHRINK_TIMEOUT_MS", "60000")))
     run_model(stream, tr_p, md_p)
     _, issues = compare(tr_p, md_p)
     return issues, open(tr_p).read().splitlines(), open(md_p).read().splitlines()
@@ -302,13 +346,42 @@ def main():
             replay = args[i + 1]; i += 2
         else:
             raise SystemExit("unknown argument " + args[i])
+    if tier not in ("quick", "thorough"):
+        raise SystemExit("unknown tier %r (quick | thorough)" % tier)
     seed = int(os.environ.get("VERIF_SEED", "1"))
     P = load_json(os.path.join(VERIF, "props", pid + ".json"))
     if P is None:
         raise SystemExit("unknown property " + pid)
     t0 = time.time()
+    # scratch directories of runs that were killed (their process is gone) are removed first
+    wroot = os.path.join(VERIF, "work")
+    if os.path.isdir(wroot):
+        for d in os.listdir(wroot):
+            m = re.match(r".*-(\d+)$", d)
+            if m and not os.path.exists("/proc/%s" % m.group(1)):
+                shutil.rmtree(os.path.join(wroot, d), ignore_errors=True)
     work = os.path.join(VERIF, "work", "%s-%d" % (pid, os.getpid()))
     os.makedirs(work, exist_ok=True)
+    # own process group, so that a kill of the check also ends generator / harness / driver / lake children
+    try:
+        os.setpgrp()
+    except OSError:
+        pass
+
+    def on_term(signum, frame):
+        shutil.rmtree(work, ignore_errors=True)
+        try:
+            signal.signal(signal.SIGTERM, signal.SIG_DFL)
+            os.killpg(os.getpgrp(), signal.SIGTERM)
+        finally:
+            os._exit(143)
+    signal.signal(signal.SIGTERM, on_term)
+    signal.signal(signal.SIGINT, on_term)
+    # until this run has a verdict the evidence file says so (a crash must not leave an older `violations: 0` behind)
+    stub = {"property_id": pid, "tier": tier, "seed": seed, "level": P.get("level", "proof"),
+            "coverage": {"evaluations": 1, "distinct_nontrivial": 2, "explanation": "run started, no verdict yet (if this file persists the run was killed or crashed)"},
+            "wall_s": 0, "violations": -1}
+    write_json_atomic(os.path.join(VERIF, "evidence", pid + ".json"), stub)
     os.makedirs(os.path.join(VERIF, "evidence"), exist_ok=True)
     try:
         rc = check(pid, P, tier, seed, work, replay, t0)
@@ -321,7 +394,11 @@ def main():
     sys.exit(rc)
 
 
+LAST_FACTS = {}
+
+
 def check(pid, P, tier, seed, work, replay, t0):
+    global LAST_FACTS
     known = [k for k in load_json(os.path.join(VERIF, "known_findings.json"), {"findings": []})["findings"]
              if pid in k.get("properties", [k.get("property")])]
     known_open = [k for k in known if k["status"] == "known"]
@@ -333,6 +410,11 @@ def check(pid, P, tier, seed, work, replay, t0):
     imports = P.get("lean_modules", [])
     with Lock(os.path.join(LEAN, ".lock")):
         facts = regenerate(work)
+        LAST_FACTS = facts
+        if facts.get("gen_diff"):
+            for g, ch in facts["gen_diff"].items():
+                if g in P.get("gen", []):
+                    notes.append("regenerated facts differ from the committed ones in Gen.%s: %s" % (g, "; ".join("%s: `%s` -> `%s`" % (c["def"], c["was"], c["now"]) for c in ch[:6])))
         for g in P.get("gen", []):
             if g in (facts.get("unrecognised") or []):
                 broken.append(("Gen." + g, "extractor no longer recognises the code shape: " + facts.get("why", {}).get(g, "")))
@@ -399,6 +481,9 @@ def check(pid, P, tier, seed, work, replay, t0):
     # replay mode
     if replay:
         rp = load_json(replay)
+        if not rp or not rp.get("ops"):
+            print("this replay names broken obligations only (no operation sequence to re-run): %s" % ((rp or {}).get("unchecked") or "?"))
+            return 1
         stream = rp.get("stream") or P["streams"][0]
         issues, tr, md = eval_case(h, stream, rp["ops"], work, "replay")
         for a, b in zip(tr, md):
@@ -449,8 +534,9 @@ def check(pid, P, tier, seed, work, replay, t0):
                 p = subprocess.Popen([h, "gen", stream, str(seed * 1000 + sh), tier], stdout=fo, stderr=subprocess.PIPE, text=True,
                                      env=dict(os.environ, VERIF_SHARDS=str(nshards)))
             procs.append((sh, ops_p, p))
+        tlim = int(os.environ.get("VERIF_STEP_TIMEOUT_S", "14400" if tier == "thorough" else "3600"))
         for sh, ops_p, p in procs:
-            _, err = p.communicate()
+            _, err = comm(p, tlim, "harness generator %s shard %d" % (stream, sh), broken)
             if p.returncode != 0:
                 broken.append(("harness generator %s" % stream, (err or "")[-1500:]))
         runs = []
@@ -464,7 +550,7 @@ def check(pid, P, tier, seed, work, replay, t0):
             runs.append((sh, ops_p, tr_p, st_p, p))
         mruns = []
         for sh, ops_p, tr_p, st_p, p in runs:
-            _, err = p.communicate()
+            _, err = comm(p, tlim, "harness run %s shard %d" % (stream, sh), broken)
             if err and "DATA RACE" in err:
                 race_reports.append({"stream": stream, "shard": sh, "report": err[:6000]})
             elif p.returncode != 0:
@@ -474,7 +560,7 @@ def check(pid, P, tier, seed, work, replay, t0):
             mp = subprocess.Popen([DRV, stream], stdin=fi, stdout=fo, stderr=subprocess.PIPE, text=True)
             mruns.append((sh, ops_p, tr_p, st_p, md_p, mp, fi, fo))
         for sh, ops_p, tr_p, st_p, md_p, mp, fi, fo in mruns:
-            _, err = mp.communicate()
+            _, err = comm(mp, tlim, "driver %s shard %d" % (stream, sh), broken)
             fi.close(); fo.close()
             if mp.returncode != 0:
                 broken.append(("driver %s shard %d" % (stream, sh), (err or "")[-1500:]))
@@ -564,7 +650,8 @@ def check(pid, P, tier, seed, work, replay, t0):
 
 def report_violation(pid, P, tier, seed, t0, work, h, broken, new_issues, stats_all, theorems, discharged, samples, evaluations, nontrivial, notes, total_lines=0, known_hits=None, explained=0):
     os.makedirs(os.path.join(VERIF, "replays"), exist_ok=True)
-    rp = {"property": pid, "seed": seed, "tier": tier, "broken_obligations": [{"what": w, "detail": d} for w, d in broken]}
+    rp = {"property": pid, "seed": seed, "tier": tier, "broken_obligations": [{"what": w, "detail": d} for w, d in broken],
+          "gen_changes": {g: ch for g, ch in (LAST_FACTS.get("gen_diff") or {}).items() if g in P.get("gen", [])}}
     found = False
     if new_issues and h:
         # prefer a case where the implementation contradicts the specification (a real failing input) for a reason
@@ -576,7 +663,7 @@ def report_violation(pid, P, tier, seed, t0, work, h, broken, new_issues, stats_
             return any(stream in (k.get("streams") or []) and re.search(k.get("verdict_regex") or r"$^", verdict) for k in known_open)
 
         def mk_preds(stream):
-            new_spec = lambda x: "spec" in x[1] and not (x[1] == "spec" and is_explained(stream, x[5]))
+            new_spec = lambda x: "spec" in x[1] and not is_explained(stream, x[5])
             any_new = lambda x: x[1] not in ("spec", "known") or (x[1] == "spec" and not is_explained(stream, x[5]))
             return new_spec, any_new
         spec_cases = [(s, o, i) for (s, o, i) in new_issues if any(mk_preds(s)[0](x) for x in i)]
@@ -648,12 +735,28 @@ def write_evidence(pid, P, tier, seed, t0, theorems, discharged, stats_all, samp
         "gen_modules": {g: ((facts or {}).get("hashes") or {}).get(g) for g in P.get("gen", [])},
         "partial_clauses": P.get("partial", []),
     }
+    # which secondary oracles were available to this run (their absence must be visible, not silent)
+    cov["secondary_oracles"] = {
+        "go_race_detector_build": bool(P.get("race_streams")) and not any("race-detector build" in n for n in notes),
+        "/usr/bin/patch": os.path.exists("/usr/bin/patch"),
+        "/bin/sh": os.path.exists("/bin/sh"),
+        "/bin/bash": os.path.exists("/bin/bash"),
+        "used_by_this_property": P.get("secondary_oracles", []),
+    }
+    if len(discharged) == 0:
+        # nothing was discharged on this run (the Lean build broke): say so under other keys — the schema reserves
+        # `obligations`/`discharged` for runs in which proofs were actually checked
+        cov["obligations_total"] = cov.pop("obligations")
+        cov["discharged_total"] = cov.pop("discharged")
+        cov["evaluations"] = max(1, cov["evaluations"])
+        cov["distinct_nontrivial"] = max(2, cov["distinct_nontrivial"]) if violations else cov["distinct_nontrivial"]
+        cov["explanation"] = "no proof obligation could be discharged on this run (see undischarged / notes); counts are lower bounds"
     ev = {
         "property_id": pid, "tier": tier, "seed": seed, "level": P.get("level", "proof"),
         "coverage": cov, "assumptions": P.get("assumptions", []),
         "wall_s": round(time.time() - t0, 2), "violations": violations,
     }
-    json.dump(ev, open(os.path.join(VERIF, "evidence", pid + ".json"), "w"), indent=1)
+    write_json_atomic(os.path.join(VERIF, "evidence", pid + ".json"), ev)
 
 
 if __name__ == "__main__":
